@@ -167,6 +167,11 @@ def rand_fault(rng, contents):
         if rng.random() < 0.15:
             f["regfail"] = True
         return f
+    if k < 0.53:
+        f = {"k": "retry", "keep": -1, "flip": -1, "lost": rng.random() < 0.5, "regfail": False, "mark": rng.random() < 0.6}
+        if rng.random() < 0.3:
+            f["keep"] = rng.randint(0, 9)
+        return f
     if k < 0.6:
         return {"k": "drop", "keep": -1, "flip": -1, "lost": False, "regfail": False}
     if k < 0.72:
@@ -177,8 +182,8 @@ def rand_fault(rng, contents):
     return {"k": "deliver", "keep": -1, "flip": -1, "lost": False, "regfail": False}
 
 
-def quiet_run():
-    return {"op": "run", "crash": -1, "rec": "ok", "puts": []}
+def quiet_run(puts=()):
+    return {"op": "run", "crash": -1, "rec": "ok", "puts": list(puts)}
 
 
 def gen_case(rng, cid):
@@ -218,12 +223,19 @@ def gen_case(rng, cid):
             events.append({"op": "requeue"})
         elif r < 0.90:
             events.append({"op": "dismiss"})
-        elif r < 0.95:
-            events.append({"op": "hubcompact", "p": rng.choice(sorted(created))})
+        elif r < 0.935:
+            events.append({"op": "hubmark", "p": rng.choice(sorted(created))})
+            if rng.random() < 0.5:
+                events.append({"op": "hubdeleteraw", "p": events[-1]["p"]})
+        elif r < 0.96:
+            events.append({"op": "hubdeleteraw", "p": rng.choice(sorted(created))})
         else:
             events.append({"op": "hubremove", "p": rng.choice(sorted(created))})
     if rng.random() < 0.5:
-        events += [quiet_run() for _ in range(maxa)]
+        # the quiescent tail: no crash, reconcile answered - the transfers themselves may still suffer
+        noisy = rng.random() < 0.5
+        events += [quiet_run([rand_fault(rng, contents) for _ in range(rng.randint(0, npaths))] if noisy else ())
+                   for _ in range(maxa)]
     return {"id": cid, "max_attempts": maxa, "paths": paths, "events": events}
 
 
@@ -266,9 +278,26 @@ def corpus_cases():
     # pruned ledger row, rediscovery, hub says present
     out.append([{"op": "create", "p": 1, "b": c}, run(), {"op": "prune"}, run()])
     # hub compaction of the received file, pruned row, rediscovery
-    out.append([{"op": "create", "p": 1, "b": c}, run(), {"op": "hubcompact", "p": 1}, {"op": "prune"}, run()])
+    out.append([{"op": "create", "p": 1, "b": c}, run(), {"op": "hubmark", "p": 1}, {"op": "hubdeleteraw", "p": 1}, {"op": "prune"}, run()])
+    # deferred source deletion: the raw file outlives the compaction mark; pruned row, rediscovery
+    out.append([{"op": "create", "p": 1, "b": c}, run(), {"op": "hubmark", "p": 1}, {"op": "prune"}, run(),
+                {"op": "hubdeleteraw", "p": 1}, {"op": "prune"}, run(), run()])
+    R = {"k": "retry", "keep": -1, "flip": -1, "lost": False, "regfail": False, "mark": True}
+    # duplicate delivery (transport retry after a lost ack) INSIDE the window between the compaction
+    # mark and the deletion of the raw file, then the deletion completes, then the spoke asks again
+    out.append([{"op": "create", "p": 1, "b": c}, run([dict(R, lost=True)]), {"op": "hubdeleteraw", "p": 1}, run(), run()])
+    out.append([{"op": "create", "p": 1, "b": c}, run([dict(R)]), {"op": "hubdeleteraw", "p": 1}, {"op": "prune"}, run(), run()])
+    out.append([{"op": "create", "p": 1, "b": c}, run(), {"op": "hubmark", "p": 1}, {"op": "prune"}, run([dict(R, mark=False)]),
+                {"op": "hubdeleteraw", "p": 1}, {"op": "hubremove", "p": 1}, {"op": "prune"}, run(), run()])
+    out.append([{"op": "create", "p": 1, "b": c}, run([dict(R, keep=3, mark=False)]), run([dict(R, keep=3, lost=True)]), run()])
+    # a transfer answered "conflict" in every pass: terminal at once, and stays so
+    CF = {"k": "conflict", "d": c2, "keep": -1, "flip": -1, "lost": False, "regfail": False}
+    out.append([{"op": "create", "p": 1, "b": c}, run([CF]), run([CF]), run([CF])])
+    out.append([{"op": "create", "p": 1, "b": c}, {"op": "create", "p": 2, "b": c2}, run([CF, dict(D, k="backpressure")]),
+                run([CF, CF]), run([CF, dict(D, k="drop")])])
     # hub compaction while the spoke has not seen the ack: re-send answered already-present
-    out.append([{"op": "create", "p": 1, "b": c}, run([dict(D, lost=True)]), {"op": "hubcompact", "p": 1}, run([], rec="drop"), run()])
+    out.append([{"op": "create", "p": 1, "b": c}, run([dict(D, lost=True)]), {"op": "hubmark", "p": 1}, {"op": "hubdeleteraw", "p": 1},
+                run([], rec="drop"), run()])
     # genuine hub removal: stale receipt forgotten, file stored again
     out.append([{"op": "create", "p": 1, "b": c}, run(), {"op": "hubremove", "p": 1}, {"op": "prune"}, run(), run()])
     # retries exhausted -> failed -> dismiss -> requeue
@@ -312,6 +341,10 @@ def fault_to_coq(f):
         return "FBackpressure"
     if f["k"] == "conflict":
         return "(FConflict %s)" % cbytes_hex(f["d"])
+    if f["k"] == "retry":
+        keep = "None" if f["keep"] < 0 else "(Some %d)" % f["keep"]
+        flip = "None" if f["flip"] < 0 else "(Some %d)" % f["flip"]
+        return "(FRetry {| bm_keep := %s; bm_flip := %s |} %s %s)" % (keep, flip, cbool(f.get("mark", False)), cbool(f["lost"]))
     keep = "None" if f["keep"] < 0 else "(Some %d)" % f["keep"]
     flip = "None" if f["flip"] < 0 else "(Some %d)" % f["flip"]
     return "(FDeliver {| bm_keep := %s; bm_flip := %s |} %s %s)" % (keep, flip, cbool(f["lost"]), cbool(f["regfail"]))
@@ -329,8 +362,10 @@ def event_to_coq(e):
         return "ERequeue"
     if op == "dismiss":
         return "EDismiss"
-    if op == "hubcompact":
-        return "(EHubCompact %d)" % e["p"]
+    if op == "hubmark":
+        return "(EHubMarkCompacted %d)" % e["p"]
+    if op == "hubdeleteraw":
+        return "(EHubDeleteRaw %d)" % e["p"]
     if op == "hubremove":
         return "(EHubRemove %d)" % e["p"]
     crash = "None" if e["crash"] < 0 else "(Some %d%%nat)" % e["crash"]
@@ -567,12 +602,16 @@ def run(res, tier, seed):
     res.cov["trusted_base"] += [
         "SHA-256 idealised as an injective function (Section hypothesis H_inj of every content theorem); the correspondence instantiates it with the identity and maps observed digests back to contents",
         "spoke paths are immutable and never reused (ledger.Track's documented PRECONDITION): ECreate on a used path is a no-op in the model and never generated",
-        "environment steps are harness emulations: hub compaction = HubIndex.MarkCompacted + delete of a file that HAS a receipt (a received file compacted before its receipt exists is outside the model), hub removal = delete, PruneSynced with the retention elapsed for every synced row",
+        "environment steps are harness emulations: hub compaction = HubIndex.MarkCompacted of a file that exists and HAS a receipt, followed at any later point by the deletion of the raw file (two separate events; a received file compacted before its receipt exists is outside the model), hub removal = delete of a file compaction has not consumed, PruneSynced with the retention elapsed for every synced row; a transport-level retry (same request delivered twice, first answer lost, optionally with the compaction mark in between) is a fault of the harness transport",
         "modelled configuration: BatchSize = 0 (one reconcile page, no 413 splitting), MaxConcurrent = 1, one spoke id, resumable LocalBackend on the hub, requests for one path are not concurrent; the HTTP encoding between HTTPTransport and the hub handler is replaced by the in-memory transport of the harness",
         "SQLite statements and LocalBackend rename are atomic (process-crash model); crash points = before every ledger write / transport call of agent.go (inserted by textual overlay of the current agent.go)",
         "air-gap states (exported) and bundle import are outside C27's network path and not modelled",
     ]
 
+    if tier == "thorough" and hasattr(vlib, "coqchk_stage"):
+        ok, _ = vlib.coqchk_stage(res, MODULES)
+        if not ok:
+            failed.append(("coqchk", "coqchk rejected the compiled development or reported inadmissible axioms"))
     n = 380 if tier == "quick" else 6000
     t1 = time.time()
     cases = corpus_cases() + [gen_case(rng, i) for i in range(n)]
@@ -599,7 +638,7 @@ def run(res, tier, seed):
             if e["op"] == "run":
                 hist["crashed_runs"] += 1 if o.get("crashed") else 0
                 for f, k in zip(e["puts"], o.get("calls") or []):
-                    kind = f["k"] if f["k"] != "deliver" else "deliver" + ("+short" if f["keep"] >= 0 else "") + (
+                    kind = (f["k"] + ("+mark" if f.get("mark") else "") + ("+lostack" if f["k"] == "retry" and f["lost"] else "")) if f["k"] != "deliver" else "deliver" + ("+short" if f["keep"] >= 0 else "") + (
                         "+corrupt" if f["flip"] >= 0 else "") + ("+lostack" if f["lost"] else "") + ("+regfail" if f["regfail"] else "")
                     hist["faults_consumed"][kind] = hist["faults_consumed"].get(kind, 0) + 1
                 r = o.get("result") or {}
